@@ -284,6 +284,14 @@ def run(chk):
             for n_, sl in zip(nets, slices):
                 if n_.fields['output_slice'] != sl:
                     raise Violation("output_slice", str(n_.fields['output_slice']), str(sl))
+            # slices with a step / default bounds / the whole range select the same outputs as on a list
+            for sl2 in ((slice(None, None, 2), slice(1, None)), (slice(None, None, -1), slice(None, 3)), (slice(0, 3, 3), slice(None, 2))):
+                nets2 = create(Sym('key'), eqx_list, "statio_PDE", 2, shared_pinn_outputs=sl2)
+                for n_, sl in zip(nets2, sl2):
+                    got = n_.fields['output_slice']
+                    sel = list(range(3))[got] if isinstance(got, slice) else (list(range(3)) if got is None else got)
+                    if sel != list(range(3))[sl]:
+                        raise Violation("output_slice", f"{got} selects outputs {sel}", f"{sl} selects outputs {list(range(3))[sl]}")
             if not same(fz(nets[0].fields['params']), fz(nets[1].fields['params'])) or \
                     not same(fz(nets[0].fields['static']), fz(nets[1].fields['static'])):
                 raise Violation("common network", "the wrappers are built on different networks", "one common network")
